@@ -179,6 +179,13 @@ where
     U: Encoder<Error = EncodeError> + Decoder<Error = DecodeError>,
     <U as Encoder>::Item: 'static,
 {
+    /// Record dispatcher error, the first error is the one that is
+    /// reported to the control service
+    fn set_error(&self, err: IoDispatcherError<P::Error>) {
+        let err = self.error.take().unwrap_or(err);
+        self.error.set(Some(err));
+    }
+
     fn handle_result(
         &self,
         item: Result<P::Response, P::Error>,
@@ -196,11 +203,11 @@ where
             self.base.set(self.base.get().wrapping_add(1));
             match item {
                 Err(err) => {
-                    self.error.set(Some(IoDispatcherError::Service(err)));
+                    self.set_error(IoDispatcherError::Service(err));
                 }
                 Ok(Some(item)) => {
                     if let Err(err) = io.encode(item, codec) {
-                        self.error.set(Some(IoDispatcherError::Encoder(err)));
+                        self.set_error(IoDispatcherError::Encoder(err));
                     }
                 }
                 Ok(None) => (),
@@ -212,11 +219,11 @@ where
                 self.base.set(self.base.get().wrapping_add(1));
                 match item {
                     Err(err) => {
-                        self.error.set(Some(IoDispatcherError::Service(err)));
+                        self.set_error(IoDispatcherError::Service(err));
                     }
                     Ok(Some(item)) => {
                         if let Err(err) = io.encode(item, codec) {
-                            self.error.set(Some(IoDispatcherError::Encoder(err)));
+                            self.set_error(IoDispatcherError::Encoder(err));
                         }
                     }
                     Ok(None) => (),
@@ -226,7 +233,7 @@ where
             err || queue.is_empty()
         } else {
             if let Err(err) = item {
-                self.error.set(Some(IoDispatcherError::Service(err)));
+                self.set_error(IoDispatcherError::Service(err));
             } else {
                 queue[idx] = ServiceResult::Ready(item);
             }
@@ -397,7 +404,7 @@ where
             // service's readiness must take this call into account
             match Pin::new(&mut fut).poll(cx) {
                 Poll::Ready(Err(err)) => {
-                    self.state.error.set(Some(IoDispatcherError::Service(err)));
+                    self.state.set_error(IoDispatcherError::Service(err));
                     return;
                 }
                 Poll::Ready(res) => {
@@ -431,11 +438,11 @@ where
             if queue.is_empty() {
                 match res {
                     Err(err) => {
-                        self.state.error.set(Some(IoDispatcherError::Service(err)));
+                        self.state.set_error(IoDispatcherError::Service(err));
                     }
                     Ok(Some(item)) => {
                         if let Err(err) = self.io.encode(item, &self.codec) {
-                            self.state.error.set(Some(IoDispatcherError::Encoder(err)));
+                            self.state.set_error(IoDispatcherError::Encoder(err));
                         }
                     }
                     Ok(None) => (),
